@@ -27,7 +27,6 @@ import (
 	"golang.org/x/sys/unix"
 
 	"github.com/panjf2000/gnet/v2/internal/gfd"
-	"github.com/panjf2000/gnet/v2/pkg/bs"
 	"github.com/panjf2000/gnet/v2/pkg/buffer/elastic"
 	errorx "github.com/panjf2000/gnet/v2/pkg/errors"
 	gio "github.com/panjf2000/gnet/v2/pkg/io"
@@ -96,18 +95,9 @@ func (c *conn) release() {
 	c.ctx = nil
 	c.safeCtx.Store(nil)
 	c.buffer = nil
-	if addr, ok := c.localAddr.(*net.TCPAddr); ok && len(c.loop.listeners) == 0 && len(addr.Zone) > 0 {
-		bsPool.Put(bs.StringToBytes(addr.Zone))
-	}
-	if addr, ok := c.remoteAddr.(*net.TCPAddr); ok && len(addr.Zone) > 0 {
-		bsPool.Put(bs.StringToBytes(addr.Zone))
-	}
-	if addr, ok := c.localAddr.(*net.UDPAddr); ok && len(c.loop.listeners) == 0 && len(addr.Zone) > 0 {
-		bsPool.Put(bs.StringToBytes(addr.Zone))
-	}
-	if addr, ok := c.remoteAddr.(*net.UDPAddr); ok && len(addr.Zone) > 0 {
-		bsPool.Put(bs.StringToBytes(addr.Zone))
-	}
+	// The zone strings of the addresses must not be recycled through the byte-slice pool:
+	// they may be interface names owned by the net package (or still referenced by the user),
+	// handing their memory out as a writable slice corrupts them for the whole process.
 	c.localAddr = nil
 	c.remoteAddr = nil
 	if !c.isDatagram {
